@@ -190,6 +190,10 @@ add("s_peek_action", SIM, SK, ["C17"], tier="thorough", cap_s=1200, mem_gb=12, g
     encodes=["queue_peek::peek_scheduled_action"], bounds="2 + 1 pending-action slots, any instants")
 add("s_peek_internal", SIM, SK, ["C18"], tier="thorough", cap_s=900, mem_gb=12, group="s_peek_i", owner="C19",
     encodes=["queue_peek::peek_scheduled_internal_timer"], bounds="2 + 1 internal-timer slots, any instants")
+add("s_peek_action_q", SIM, SK, ["C17"], cap_s=600, mem_gb=12, group="s_peek_aq", owner="C19",
+    encodes=["queue_peek::peek_scheduled_action"], bounds="1 + 1 pending-action slots, any instants")
+add("s_peek_internal_q", SIM, SK, ["C18"], cap_s=600, mem_gb=12, group="s_peek_iq", owner="C19",
+    encodes=["queue_peek::peek_scheduled_internal_timer"], bounds="1 + 1 internal-timer slots, any instants")
 add("s_peek_blocked", SIM, SK, ["C16"], cap_s=300, mem_gb=12, group="s_peek", owner="C19",
     encodes=["queue_peek::peek_blocked_exp"], bounds="both sides' blocking expiry arbitrary (at or after now)")
 
@@ -199,10 +203,13 @@ for nm, what in (("normal_sent", "NormalSent"), ("tunnel_sent", "TunnelSent"), (
         encodes=["network::sim_network_stack (%s)" % what, "NetworkBottleneck::sample", "WindowCount::add", "SimQueue::push_sim"],
         bounds="one %s event, any side, any padding flag, empty queue, any network delay up to 10 s, no machines, "
                "no integration delays, fresh rate window" % what)
-add("s_stack_padding_sent", SIM, SK, ["C15", "C16"], cap_s=900, mem_gb=16, group="s_stack_pad", owner="C19",
-    encodes=["network::sim_network_stack (PaddingSent)", "SimQueue::peek_blocking / pop_blocking", "delay::agg_delay_on_padding_bypass_replace"],
-    bounds="one PaddingSent with any bypass/replace flags, zero or one normal packet queued on that side, any blocking state")
-add("s_bottleneck_sample", SIM, "network::verif_kani", ["C14", "C19"], cap_s=900, mem_gb=16, group="s_bottleneck_sample", owner="C19",
+for nm, what, tier in (("empty", "no packet queued, any bypass flag", "quick"),
+                       ("queued", "one normal packet queued on that side, padding without bypass", "thorough"),
+                       ("queued_bypass", "one normal packet queued on that side, padding with bypass", "thorough")):
+    add("s_stack_padding_sent_" + nm, SIM, SK, ["C15", "C16"], tier=tier, cap_s=900, mem_gb=24, group="s_stack_pad_" + nm, owner="C19",
+        encodes=["network::sim_network_stack (PaddingSent)", "SimQueue::peek_blocking / pop_blocking", "delay::agg_delay_on_padding_bypass_replace"],
+        bounds="one PaddingSent with any replace flag, %s, any blocking state, network delay 1 ms" % what)
+add("s_bottleneck_sample", SIM, "network::verif_kani", [], cap_s=900, mem_gb=16, group="s_bottleneck_sample", owner="C19",
     encodes=["NetworkBottleneck::sample", "WindowCount::add"],
     bounds="two packets at any two ordered instants on one side, limit >= 2, window 1 s (capacity-4 buffers)")
 add("s_bottleneck_new", SIM, SK, ["C19"], cap_s=300, mem_gb=12, group="s_bottleneck_new",
